@@ -400,3 +400,41 @@ func posOf(n ast.Node) token.Pos {
 	}
 	return n.Pos()
 }
+
+// eqNamedConst is the guard "the compared value equals the constant spelled
+// …name": a case clause of a tagged switch, `v == name` (either side) on its
+// true edge or `v != name` on its false edge.
+func eqNamedConst(name string) core.Guard {
+	return func(x *core.Unit, br core.Branch) int {
+		if br.IsCase {
+			if br.TypeSwitch == nil && strings.HasSuffix(selPath(br.Cond), name) {
+				return 1
+			}
+			return 0
+		}
+		be, ok := ast.Unparen(br.Cond).(*ast.BinaryExpr)
+		if !ok || !(strings.HasSuffix(selPath(be.X), name) || strings.HasSuffix(selPath(be.Y), name)) {
+			return 0
+		}
+		switch be.Op {
+		case token.EQL:
+			return 1
+		case token.NEQ:
+			return -1
+		}
+		return 0
+	}
+}
+
+// eqIntOnEdge reports the integer constant a fact establishes its subject to
+// be equal to (case clause, == on the true edge, != on the false edge).
+func eqIntOnEdge(u *core.Unit, f core.Fact) (int64, bool) {
+	cmp, ok := u.BranchCmp(f.Br)
+	if !ok || cmp.Val == nil || cmp.Val.Kind() != constant.Int {
+		return 0, false
+	}
+	if (cmp.Op == token.EQL && f.Val) || (cmp.Op == token.NEQ && !f.Val) {
+		return constant.Int64Val(cmp.Val)
+	}
+	return 0, false
+}
